@@ -80,3 +80,49 @@ func (u *Universe) frameCaseCalls(prop string) []FrameResult {
 	}
 	return out
 }
+
+// frameMustReadAll decides the must_read clauses: every listed field of the
+// input type is read somewhere in the function or in the /repo functions it
+// can reach. A field that is never read cannot influence the output.
+func (u *Universe) frameMustReadAll(prop string) []FrameResult {
+	var out []FrameResult
+	for _, fi := range u.contractsFor(prop) {
+		for _, mr := range fi.Con.MustRead {
+			reach := u.reachable(fi)
+			read := map[string]string{}
+			for g := range reach {
+				info := g.Pkg.TypesInfo
+				ast.Inspect(g.Decl.Body, func(n ast.Node) bool {
+					sel, ok := n.(*ast.SelectorExpr)
+					if !ok {
+						return true
+					}
+					s, ok := info.Selections[sel]
+					if !ok || s.Kind() != types.FieldVal {
+						return true
+					}
+					on := ownerName(s.Recv())
+					if on == mr.Type {
+						if _, have := read[sel.Sel.Name]; !have {
+							pos := u.fset.Position(sel.Pos())
+							read[sel.Sel.Name] = fmt.Sprintf("%s:%d", pos.Filename, pos.Line)
+						}
+					}
+					return true
+				})
+			}
+			for _, f := range mr.Allowed {
+				r := FrameResult{Name: fmt.Sprintf("frame:must-read/%s/%s.%s", funcLabel(fi), mr.Type, f), Props: fi.Con.Props, Backend: "goframe"}
+				if where, ok := read[f]; ok {
+					r.OK = true
+					r.Detail = fmt.Sprintf("%s.%s is read at %s (%d functions reachable from %s)", mr.Type, f, where, len(reach), funcLabel(fi))
+				} else {
+					r.Detail = fmt.Sprintf("%s.%s is never read by %s or the %d functions it reaches: whatever it means is dropped", mr.Type, f, funcLabel(fi), len(reach))
+					r.Witness = "two inputs differing only in " + mr.Type + "." + f + " are translated identically"
+				}
+				out = append(out, r)
+			}
+		}
+	}
+	return out
+}
